@@ -18,7 +18,7 @@ TRUSTED_BASE = [
     "modelled, not verified: everything in libvata; here the expected values are constants derived from theorems (laws, equivariance), so no second implementation is trusted",
 ]
 ASSUMPTIONS = ["automata are read with libvata's own Timbuk parser", "a call exceeding the per-call limit is inconclusive for that selection (speed is not a property)",
-               "size invariance of Reduce/trimming under renaming is tied by correspondence only (the Coq corollaries cover verdicts, emptiness, laws)"]
+               "size invariance of Reduce under renaming is tied by correspondence only (the Coq corollaries cover verdicts, emptiness, laws, and the size after trimming)"]
 FLAVOURS = {"quick": ["plain"], "thorough": ["plain"]}
 def small_files():
     d = os.path.join(REPO, "automata", "small_timbuk")
